@@ -72,6 +72,21 @@ class Probe:
         bump('Probe.__getitem__'); raise KeyError(k)
     def __contains__(self, k):
         bump('Probe.__contains__'); return False
+    def __complex__(self):
+        bump('Probe.__complex__'); return 0j
+    def __float__(self):
+        bump('Probe.__float__'); return 0.0
+    def __int__(self):
+        bump('Probe.__int__'); return 0
+    def __index__(self):
+        bump('Probe.__index__'); return 0
+    def __bytes__(self):
+        bump('Probe.__bytes__'); return b''
+    def __getattr__(self, name):
+        # any ordinary attribute or method somebody tries on the object (.encode, .lower, .replace, .split, ...)
+        if name.startswith('__') and name.endswith('__'):
+            raise AttributeError(name)
+        bump('Probe.__getattr__ ' + name); raise AttributeError(name)
 class UnhashableProbe(Probe):
     __hash__ = None
 PROBE = Probe()
